@@ -66,9 +66,9 @@ func cmdCheck(args []string) {
 		seed, _ = strconv.Atoi(s)
 	}
 	start := time.Now()
-	timeout := 10
+	timeout := 25
 	if *tier == "thorough" {
-		timeout = 60
+		timeout = 90
 	}
 	evPath := filepath.Join(*verif, "evidence", prop+".json")
 	replayDir := filepath.Join(*verif, "replays", prop)
@@ -133,7 +133,7 @@ func cmdCheck(args []string) {
 		obls = append(obls, fr.Obls...)
 	}
 	t0 := time.Now()
-	solveAll(obls, dir, timeout, 14, false)
+	solveAll(obls, dir, timeout, 10, false)
 	solverS := time.Since(t0).Seconds()
 
 	// expected obligations (committed): guards against silently vanishing obligations
